@@ -21,7 +21,7 @@ var (
 	rsWide   = ReqOpts{MaxProv: 2, OnlyState: -1, OneOutput: true}                               // respond, <=2 requests in the batch
 	rsMod    = ReqOpts{MaxProv: 2, OnlyState: 0, Module: true, ModuleOnly: true, NoSlash: true}  // respond with callbacks
 	rsOne    = ReqOpts{MaxProv: 1, OnlyState: -1, OneOutput: true, AnyDeposit: true}             // respond, one request
-	cmOne    = ReqOpts{MaxProv: 1, OnlyState: -1, Module: true}                                  // context messages
+	cmOne    = ReqOpts{MaxProv: 1, OnlyState: -1, Module: true, ModuleGone: true}                // context messages
 	bmPlain  = BindOpts{NT: 0, NV: 0}
 	wdQuick  = WdOpts{LenP0: 20, LenP1: 20}
 	gnQuick  = ReqOpts{MaxProv: 1, OnlyState: -1}
@@ -428,8 +428,14 @@ func C12_PauseNoticeKills() { focus = "C12"; scenePauseNoticeKills() }
 func C18_ZeroHeight() { focus = "C18"; sceneGenesis(gnQuick) }
 
 // C20: prices written as decimal numbers of any length (the pricing schema admits them)
-func C20_BindDecimalPrice()   { focus = "C20"; sceneBindingMsg(opBind, BindOpts{Huge: true, MsgDec: true}) }
-func C20_UpdateDecimalPrice() { focus = "C20"; sceneBindingMsg(opUpdBinding, BindOpts{Huge: true, MsgDec: true}) }
+func C20_BindDecimalPrice() {
+	focus = "C20"
+	sceneBindingMsg(opBind, BindOpts{Huge: true, MsgDec: true})
+}
+func C20_UpdateDecimalPrice() {
+	focus = "C20"
+	sceneBindingMsg(opUpdBinding, BindOpts{Huge: true, MsgDec: true})
+}
 
 // C03/C04/C14: a zero-height export hands back fees and earnings, not deposits
 func C03_Genesis() { focus = "C03"; sceneGenesis(gnQuick) }
